@@ -34,7 +34,7 @@ import (
 )
 
 type typedPkg struct {
-	New      func(prefix string, cb func(ctx context.Context, op string, args []any, res any) error, ne func(ctx context.Context, err error, res any), fill func(context.Context, any), saw func(context.Context, any), hc ht.Client, eh func(context.Context, http.ResponseWriter, *http.Request, error), mws ...middleware.Middleware) (http.Handler, any, any, error)
+	New      func(prefix string, cb func(ctx context.Context, op string, args []any, res any) error, ne func(ctx context.Context, err error, res any), fill func(context.Context, any), saw func(context.Context, any), hc ht.Client, eh func(context.Context, http.ResponseWriter, *http.Request, error), nf http.HandlerFunc, mna func(http.ResponseWriter, *http.Request, string), mws ...middleware.Middleware) (http.Handler, any, any, error)
 	Impls    map[string][]reflect.Type
 	Ops      []string
 	Webhooks map[string]string // webhook operation -> webhook name
@@ -1212,6 +1212,32 @@ func typedNewError(ctx context.Context, err error, res any) {
 			f.SetInt(int64(ogenerrors.ErrorCode(err)))
 		}
 	}
+}
+
+// customNotFound and customMethodNotAllowed are a user's own handlers for unroutable requests: they answer like ogen's
+// defaults and tell the harness that they ran.
+func customNotFound(w http.ResponseWriter, r *http.Request) {
+	if si, _ := r.Context().Value(srvKey{}).(*srvInfo); si != nil {
+		si.Side.CustomNotFound++
+		si.St.Yield()
+	}
+	w.Header().Set("X-Sim-Custom", "not-found")
+	w.WriteHeader(http.StatusNotFound)
+	_, _ = w.Write([]byte("custom: no such route\n"))
+}
+
+func customMethodNotAllowed(w http.ResponseWriter, r *http.Request, allowed string) {
+	if si, _ := r.Context().Value(srvKey{}).(*srvInfo); si != nil {
+		si.Side.CustomNotAllow++
+		si.St.Yield()
+	}
+	status := http.StatusMethodNotAllowed
+	if r.Method == http.MethodOptions {
+		status = http.StatusNoContent
+	}
+	w.Header().Set("Allow", allowed)
+	w.Header().Set("X-Sim-Custom", "method-not-allowed")
+	w.WriteHeader(status)
 }
 
 // typedFill is the client's security source: every text member of a credential names the call it belongs to.
